@@ -27,6 +27,15 @@ Theorem C19_nothing_configured_nothing_permitted : forall c h d i,
 Proof. exact nothing_configured_nothing_permitted. Qed.
 Print Assumptions C19_nothing_configured_nothing_permitted.
 
+(** its hypotheses are satisfiable by a non-trivial history: after add n; add
+    n; remove n on an agent with nothing configured the table is empty again
+    and the destination inside n is refused (on the repaired code) *)
+Theorem C19_nothing_configured_example :
+  configured_nets w_cfg = [] /\ configured_domains w_cfg = [] /\ s_dyn (run w_cfg w_hist) = [] /\
+  open (run w_cfg w_hist) w_dest = MDenied.
+Proof. vm_compute. repeat split; reflexivity. Qed.
+Print Assumptions C19_nothing_configured_example.
+
 (** In every reachable state the allow list holds exactly the configured
     networks and the current dynamic routes. *)
 Theorem C19_allow_list_is_configured_plus_dynamic : forall c h l n,
